@@ -544,7 +544,28 @@ def rule_discarded_results(ctx, R="C11/discarded-results"):
     ctx.ok(R, "table", None, "%d of %d reviewed entries matched%s" % (len(REVIEWED_DISCARDS) - len(stale), len(REVIEWED_DISCARDS), (" (unused: %s)" % stale) if stale else ""), nontrivial=False)
 
 
+INIT_STEPS = ("PtraceDumper::stop_process", "AuxvDumpInfo::try_filling_missing_info", "PtraceDumper::enumerate_threads", "PtraceDumper::enumerate_mappings")
+
+
+def rule_every_step_attempted(ctx, R="C11/every-step-attempted"):
+    """`every other stream is still produced as if the failure had not happened`: the outcome of one best-effort step never decides
+    whether another one runs — each of the four preparation steps of PtraceDumper::init is called on every path through init (a step
+    skipped because an earlier one failed "so it cannot work anyway" costs everything that depends on it)."""
+    b = ctx.body(R, PD + "::init")
+    if b is None:
+        return
+    rets = [i for i in range(b.n) if b.term(i)["k"] == "return"]
+    for step in INIT_STEPS:
+        calls = [bi for bi, t in b.calls(lambda c: (c.short or "").endswith(step) or (c.target or "").endswith(step))]
+        ctx.floor(R, "calls of %s in init" % step.split("::")[-1], len(calls), 1)
+        skipped = [r for r in rets if calls and must_pass(b, 0, {r}, set(calls)) is not None]
+        ctx.check(bool(calls) and not skipped, R, ("unconditional", step.split("::")[-1]), b.where(calls[0]) if calls else None,
+                  "%s runs on every path through init" % step.split("::")[-1],
+                  "%s can be skipped: a path through PtraceDumper::init does not call it (whatever the earlier steps reported, the later ones must still be tried)" % step.split("::")[-1])
+
+
 def run(ctx):
+    rule_every_step_attempted(ctx)
     rule_discarded_results(ctx)
     rule_soft_errors_serialisable(ctx)
     rule_serialisers_total(ctx)
